@@ -21,11 +21,18 @@ Definition col (f:entry -> N) (es:list entry) : list N := concat (map (fun e => 
 Definition serialize_entries (es:list entry) : list N :=
   put_uvarint (N.of_nat (length es)) ++ ids_col 0 es ++ col run es ++ col len es ++ offs_col None es.
 
-(* ---- DeserializeEntries (errors of ReadUvarint ignored exactly as in the Go code:
-        after EOF every further read yields 0, so missing columns are fabricated as zeros) *)
-Fixpoint read_n (n:nat) (bs:list N) : list N * list N :=
-  match n with O => ([], bs) | S k =>
-    let '(v, r, _) := read_uvarint bs in let '(vs, r') := read_n k r in (v :: vs, r') end.
+(* ---- DeserializeEntries / deserializeEntriesChecked (after the "fix:" commit for corrupt directories):
+        the first failing varint read (EOF, truncated or overlong varint) aborts the decoding with an
+        error; the exported DeserializeEntries then returns an empty directory. Every successful read
+        consumes at least one byte, so a count larger than the remaining input is an error without
+        any allocation proportional to the count. *)
+Fixpoint read_n (n:nat) (bs:list N) : option (list N * list N) :=
+  match n with O => Some ([], bs) | S k =>
+    let '(v, r, e) := read_uvarint bs in
+    match e with
+    | VOk => match read_n k r with Some (vs, r') => Some (v :: vs, r') | None => None end
+    | _ => None
+    end end.
 Fixpoint build (last:N) (prev:option entry) (ds rs ls os : list N) : list entry :=
   match ds, rs, ls, os with
   | d :: ds', r :: rs', l :: ls', o :: os' =>
@@ -37,23 +44,22 @@ Fixpoint build (last:N) (prev:option entry) (ds rs ls os : list N) : list entry 
       e :: build id (Some e) ds' rs' ls' os'
   | _, _, _, _ => []
   end.
-Definition dir_count (bs:list N) : N := let '(n, _, _) := read_uvarint bs in n.
+(* None = deserializeEntriesChecked returns an error *)
+Definition deserialize_res (bs:list N) : option (list entry) :=
+  let '(n, r0, e) := read_uvarint bs in
+  match e with
+  | VOk =>
+    if N.of_nat (length r0) <? n then None else
+    let cnt := N.to_nat n in
+    match read_n cnt r0 with None => None | Some (ds, r1) =>
+    match read_n cnt r1 with None => None | Some (rs, r2) =>
+    match read_n cnt r2 with None => None | Some (ls, r3) =>
+    match read_n cnt r3 with None => None | Some (os, _) => Some (build 0 None ds rs ls os)
+    end end end end
+  | _ => None
+  end.
 Definition deserialize_entries (bs:list N) : list entry :=
-  let '(n, r0, _) := read_uvarint bs in
-  let cnt := N.to_nat n in
-  let '(ds, r1) := read_n cnt r0 in
-  let '(rs, r2) := read_n cnt r1 in
-  let '(ls, r3) := read_n cnt r2 in
-  let '(os, _) := read_n cnt r3 in
-  build 0 None ds rs ls os.
-
-(* Resource outcome: the Go decoder allocates one 24-byte entry per counted element whether or not
-   the input backs it.  Counts above the threshold are reported as Exhaust by the model (the
-   correspondence harness observes the implementation under a memory limit). *)
-Definition exhaust_threshold : N := 2^26.
-Inductive dres := DOk (es:list entry) | DExhaust.
-Definition deserialize_checked (bs:list N) : dres :=
-  if exhaust_threshold <? dir_count bs then DExhaust else DOk (deserialize_entries bs).
+  match deserialize_res bs with Some es => es | None => [] end.
 
 (* ---- well-formedness = the ranges of the Go field types, offsets below 2^64-1 *)
 Definition entry_ok (e:entry) : Prop := tid e < 2^64 /\ off e < 2^64 - 1 /\ len e < 2^32 /\ run e < 2^32.
